@@ -12,7 +12,8 @@ EXPLANATION = (
     'woken; Completed is produced only from Poll::Ready or an aborted task, Cancelled only from the eviction test; R07.c the eviction '
     'test depends on the poll result being Pending (Suspended), on the woken flag and on Arc::strong_count of the per-poll waker, read '
     'after the executor\'s own Waker copy was dropped; R07.d every hand-written poll function of crux_core and crux_time that returns Pending has '
-    'kept a clone of the waker of the current poll (the premise under which "no clone survives" means "cannot be woken"). NOT decided: exactness of the waker-count heuristic — whether "no surviving '
+    'kept a clone of the waker of the current poll (the premise under which "no clone survives" means "cannot be woken"). R07.b also requires that every '
+    'task leaving the slab — finished, aborted or evicted — publishes `finished` and wakes its join handles (after the removal, or on every terminal path of run_task). NOT decided: exactness of the waker-count heuristic — whether "no surviving '
     'waker clone" coincides with "can never be woken" for every mix of joins, selects, channels and self-waking futures depends on '
     'what arbitrary user futures do with wakers at run time.')
 
